@@ -186,6 +186,12 @@ def _run_check(mod, prop, tier, seed, replay, tmp, jobs_n, timeout, t0):
                 # (memory corruption does not always crash at the same place: the traced re-run is attempted up to three times;
                 #  only the first two crashed units are investigated case by case, further ones are reported at unit level)
                 crash_investigations += 1
+                # SIGKILL / SIGTERM / SIGINT never originate in the library: they come from the kernel's out-of-memory killer or from an operator.
+                # Such a death is inconclusive (exit 2) unless a traced re-run pins it to a case.
+                external = j.rc is not None and -j.rc in (9, 15, 2)
+                if crash_investigations > 2 and j.rc is not None and j.rc < 0 and external:
+                    harness_errors.append('unit %s was killed from outside (signal %d): inconclusive' % (j.label, -j.rc))
+                    continue
                 if crash_investigations > 2 and j.rc is not None and j.rc < 0:
                     violations.append({'msg': 'worker process killed by signal %d while running unit %s: a crash of the library is never a clean rejection' % (-j.rc, j.label),
                                        'case': {'rerun_unit': j.what, 'unit': j.label, 'tier': tier, 'seed': seed, 'signal': -j.rc}, 'finding': None, 'unit': j.label})
@@ -209,7 +215,9 @@ def _run_check(mod, prop, tier, seed, replay, tmp, jobs_n, timeout, t0):
                                        'case': case, 'finding': None, 'unit': j.label})
                     continue
                 if tres is not None and tres.get('ok'):
-                    if j.rc is not None and j.rc < 0:
+                    if j.rc is not None and j.rc < 0 and external:
+                        harness_errors.append('unit %s was killed from outside (signal %d) and the traced re-run completed: inconclusive' % (j.label, -j.rc))
+                    elif j.rc is not None and j.rc < 0:
                         # killed by a signal inside native code (abort / segmentation fault) and not pinned to one case by three traced re-runs:
                         # memory corruption crashes at varying places. The replay file names the unit; --replay re-executes it (several attempts).
                         violations.append({'msg': 'worker process killed by signal %d while running unit %s (not reproduced case by case in 3 traced re-runs): a crash of the library is never a clean rejection' % (-j.rc, j.label),
@@ -217,6 +225,9 @@ def _run_check(mod, prop, tier, seed, replay, tmp, jobs_n, timeout, t0):
                     else:
                         harness_errors.append('unit %s died (rc=%s) but the traced re-run completed: not reproducible\n%s' % (j.label, j.rc, j.tail()))
                     res = tres
+                elif j.rc is not None and j.rc < 0 and external:
+                    harness_errors.append('unit %s was killed from outside (signal %d): inconclusive' % (j.label, -j.rc))
+                    continue
                 elif j.rc is not None and j.rc < 0:
                     violations.append({'msg': 'worker process killed by signal %d while running unit %s (the failing case could not be persisted): a crash of the library is never a clean rejection' % (-j.rc, j.label),
                                        'case': {'rerun_unit': j.what, 'unit': j.label, 'tier': tier, 'seed': seed, 'signal': -j.rc}, 'finding': None, 'unit': j.label})
